@@ -67,6 +67,7 @@ from .. import (
 )
 from .._core._eventloop import (
     claim_worker_thread,
+    future_outcome,
     set_current_async_library,
     threadlocals,
 )
@@ -2822,7 +2823,7 @@ class AsyncIOBackend(AsyncBackend):
         f: concurrent.futures.Future[T_co] = context.run(
             asyncio.run_coroutine_threadsafe, task_wrapper(), loop=loop
         )
-        return f.result()
+        return future_outcome(f)
 
     @classmethod
     def run_sync_from_thread(
@@ -2849,7 +2850,7 @@ class AsyncIOBackend(AsyncBackend):
 
         f: concurrent.futures.Future[T_Retval] = Future()
         loop.call_soon_threadsafe(wrapper)
-        return f.result()
+        return future_outcome(f)
 
     @classmethod
     async def open_process(
